@@ -48,6 +48,7 @@ type C08Case struct {
 	Quick    bool   `json:"quick,omitempty"`    // observe 1.5 s after feeding the providers: each flow has ticked exactly once, nothing has viewed the proposals yet
 	Second   bool   `json:"second,omitempty"`   // the log proposals surfaced by the previous outcome are proposed again afterwards; a SECOND observation is the one judged
 	AccLower bool   `json:"acc_lower,omitempty"` // in-flight reports for proposals carry a LOWER check block than the stored proposal
+	AgedAgain bool  `json:"aged_again,omitempty"` // the expired proposals are made again after the observation that purged them; the NEXT observation is judged
 	Aged     int    `json:"aged,omitempty"`     // this many log proposals and conditional upkeeps were proposed more than 24 h before everything else (expired, still stored)
 	WarmSeq  uint64 `json:"warm_seq,omitempty"` // if non-zero: Observation is first called with this sequence number (exercises the sorter memo)
 	// observed
@@ -330,6 +331,36 @@ func runC08(t *testing.T, c *C08Case) {
 			return
 		}
 	}
+	if c.AgedAgain && c.Aged > 0 && !c.Second {
+		// the proposals that had expired (and were purged by the views of the observation just built) are made again:
+		// each is pending once, whatever the store did with the old key
+		recA.mu.Lock()
+		for _, p := range conds[:agedC] {
+			delete(recA.checked, p.WorkID)
+		}
+		recA.mu.Unlock()
+		a.Recov.Push(recov[:agedL]...)
+		a.Getter.Set(conds[:agedC])
+		time.Sleep(7 * time.Second)
+		synctest.Wait()
+		a.Getter.Set(nil)
+		recA.mu.Lock()
+		for _, p := range conds[:agedC] {
+			if _, ok := recA.checked[p.WorkID]; ok {
+				condView = append(condView, p)
+			}
+		}
+		recA.mu.Unlock()
+		logView = append(logView, recov[:agedL]...)
+		seq++
+		outctx = ocr3types.OutcomeContext{SeqNr: seq}
+		obA, errA = a.Plugin.Observation(context.Background(), outctx, nil)
+		obB, errB = b.Plugin.Observation(context.Background(), outctx, nil)
+		if errA != nil || errB != nil {
+			c.Err = fmt.Sprint(errA, errB)
+			return
+		}
+	}
 	c.Len = len(obA)
 	c.PeerOK = peer.Plugin.ValidateObservation(context.Background(), outctx, nil, ocr2plustypes.AttributedObservation{Observation: obA}) == nil
 	var oa, ob ocr2keepers.AutomationObservation
@@ -485,6 +516,8 @@ func boundary() []C08Case {
 	add(C08Case{Family: "expired-proposals-among-live", Seq: 56, Digest: 1, Staged: 3, LogProps: 9, CondUpk: 9, Aged: 3, HistLen: 3})
 	add(C08Case{Family: "expired-proposals-among-live", Seq: 57, Digest: 2, Staged: 0, LogProps: 12, CondUpk: 12, Aged: 6, HistLen: 3})
 	add(C08Case{Family: "expired-proposals-among-live", Seq: 58, Digest: 3, Staged: 40, PDMode: 2, LogProps: 5, CondUpk: 5, Aged: 2, PropsFly: 2, HistLen: 3})
+	add(C08Case{Family: "expired-proposals-made-again", Seq: 60, Digest: 1, Staged: 3, LogProps: 4, CondUpk: 4, Aged: 2, AgedAgain: true, HistLen: 3})
+	add(C08Case{Family: "expired-proposals-made-again", Seq: 61, Digest: 2, Staged: 0, LogProps: 5, CondUpk: 3, Aged: 3, AgedAgain: true, HistLen: 3})
 	add(C08Case{Family: "all-proposals-expired", Seq: 59, Digest: 1, Staged: 2, LogProps: 4, CondUpk: 4, Aged: 4, HistLen: 3})
 	add(C08Case{Family: "thousands-staged", Seq: 50, Digest: 2, Staged: 3000, PDMode: 0, InFlight: 50, HistLen: 256, LogProps: 5, CondUpk: 5})
 	return cs
@@ -516,6 +549,7 @@ func random08(r *Rng) C08Case {
 	c.AccLower = r.Chance(1, 3)
 	if !c.Quick && c.PrevSurf == 0 && r.Chance(1, 4) {
 		c.Aged = 1 + r.Intn(5)
+		c.AgedAgain = r.Chance(1, 2)
 	}
 	if c.Staged > 0 && c.Staged <= 150 && c.PrevAgr == 0 && r.Chance(1, 5) {
 		c.Restage = 1 + r.Intn(c.Staged)
